@@ -6,7 +6,7 @@
     pageInfo was selected, how each getter call handed over its result, the response and the
     (min, max, limit) triples the getter received. *)
 From Coq Require Import List NArith ZArith Bool String.
-From ApiFu Require Import Base.Sexp TimeConn.TimeModel TimeConn.TimeSpec TimeConn.TimeErrModel TimeConn.TimeCursorCodec TimeConn.GoTimeModel.
+From ApiFu Require Import Base.Sexp TimeConn.TimeModel TimeConn.TimeSpec TimeConn.TimeErrModel TimeConn.TimeCursorCodec TimeConn.GoTimeModel TimeConn.DateTimeModel.
 Import ListNotations.
 Open Scope string_scope.
 
@@ -29,6 +29,8 @@ Record step := {
   s_raised : list Z;                      (* per call: 0 = no error, 1 = an error, 2 = a typed nil error *)
   s_after_raw : option bytes;             (* the after / before argument strings as sent *)
   s_before_raw : option bytes;
+  s_from_raw : option bytes;              (* the atOrAfterTime / beforeTime argument strings as sent *)
+  s_to_raw : option bytes;
   s_raw : option rawcur;                  (* the cursor strings of the response *)
   s_tccalls : Z                           (* calls of ResolveTotalCount *)
 }.
@@ -208,6 +210,7 @@ Definition dec_step (s : sexp) : option step :=
                       Some {| s_args := a'; s_sel := {| want_info := i'; want_total := t' |}; s_tc := tc';
                               s_xpres := ps'; s_obs := o'; s_calls := ts'; s_raised := rs'; s_tccalls := n';
                               s_after_raw := dec_rawarg "afterraw" a; s_before_raw := dec_rawarg "beforeraw" a;
+                              s_from_raw := dec_rawarg "fromraw" a; s_to_raw := dec_rawarg "toraw" a;
                               s_raw := dec_raw o |}
                   | _, _, _ => None
                   end
@@ -387,8 +390,15 @@ Definition cursor_arg_eqb (a b : cursor_arg) : bool :=
 Definition compare_codec (i : nat) (s : step) : option sexp :=
   let bad (what : string) := Some (v_mismatch what [of_nat i]) in
   let arg_ok raw c := match arg_of_wire raw with Some m => cursor_arg_eqb m c | None => true end in
+  let dt_ok raw t := match raw, t with
+                     | Some w, Some n => match parse_rfc3339 w with PDTime m => Z.eqb m n | PDOut => true end
+                     | None, None => true
+                     | _, _ => false
+                     end in
   if negb (arg_ok (s_after_raw s) (a_after (s_args s)) && arg_ok (s_before_raw s) (a_before (s_args s)))
   then bad "cursor-decoding"
+  else if negb (dt_ok (s_from_raw s) (a_from (s_args s)) && dt_ok (s_to_raw s) (a_to (s_args s)))
+  then bad "datetime-parsing"
   else
     match s_obs s, s_raw s with
     | ObPage _ cs info _, Some r =>
@@ -560,6 +570,9 @@ Definition step_classes (E : list edge) (g : query -> list edge) (s : step) : li
                  end)) "typed-nil-error-fix-matters"
   ++ cond (match arg_of_wire (s_after_raw s), arg_of_wire (s_before_raw s) with Some _, Some _ => false | _, _ => true end)
           "cursor-string-outside-codec-model"
+  ++ cond (match s_from_raw s, s_to_raw s with Some _, _ => true | _, Some _ => true | _, _ => false end) "datetime-string-parsed-by-model"
+  ++ cond (existsb (fun o => match o with Some w => match parse_rfc3339 w with PDOut => true | _ => false end | None => false end)
+                   [s_from_raw s; s_to_raw s]) "datetime-string-outside-parser-model"
   ++ cond (match s_after_raw s, s_before_raw s with
            | Some (_ :: _), _ => true | _, Some (_ :: _) => true | _, _ => false end) "cursor-string-decoded-by-model"
   ++ cond (want_total (s_sel s)) "total-count"
